@@ -437,6 +437,10 @@ func (sc *serverConn) handleStreams() {
 	var reqTimerArmed bool
 	var openStreams int
 
+	// highest id of a stream that was refused: it is used up all the same
+	// (RFC 7540 5.1.1), although it never becomes lastID.
+	var lastRefused uint32
+
 	// curInitialWindow tracks the client's SETTINGS_INITIAL_WINDOW_SIZE, which
 	// is the send window every new stream starts with. It starts at the spec
 	// default of 65535; the client's SETTINGS frames are forwarded to this
@@ -795,6 +799,10 @@ loop:
 						}
 					}
 
+					if fr.Stream() > lastRefused {
+						lastRefused = fr.Stream()
+					}
+
 					sc.writeReset(fr.Stream(), RefusedStreamError)
 
 					continue
@@ -802,7 +810,7 @@ loop:
 
 				// Not above the newest stream and not in the table: it has been
 				// used. That holds for lastID itself once it has left closedStrms.
-				if fr.Stream() <= sc.lastID {
+				if fr.Stream() <= sc.lastID || fr.Stream() <= lastRefused {
 					sc.writeGoAway(fr.Stream(), ProtocolError, "stream ID is lower than the latest")
 
 					if canCloseAfterGoAway() {
